@@ -415,6 +415,9 @@ func opGcsConc(_ *HState, a Event) Event {
 	ask := func() []bool {
 		var r []bool
 		for _, q := range qs {
+			if gBool(a, "hashfirst") { // the very first query of every goroutine is an indexed one
+				f.HashMatchAny(key, [][]byte{q, {7}})
+			}
 			m1, _ := f.Match(key, q)
 			m2, _ := f.MatchAny(key, [][]byte{q, {9, 9, 9}})
 			m3, _ := f.HashMatchAny(key, [][]byte{q})
